@@ -208,6 +208,8 @@ CHECKS = {
         "level_note": "canonical schedule; vrtConn pipes; oracle = reference codec + section 4.7 matching; filters with empty levels are excluded here (known finding under C06)",
         "max_validate": {"quick": 120, "thorough": 400},
         "groups": [
+            # an acknowledged subscription whose retained delivery jams and whose client then drops is part of the session
+            {"pkg": "service", "run": "H07j_.*", "flags": {"common": ["-unwind", "100000"]}, "reach": ["C07.acknowledged_then_jammed"]},
             {"pkg": "service", "run": "H07_.*",
              "flags": {"common": ["-unwind", "64"],
                        "quick": ["-bounds", "N07levels=2,N07filters=2,N07ufilters=2"],
@@ -316,7 +318,9 @@ CHECKS = {
             {"pkg": "service", "run": "H08_.*", "tiers": ["thorough"],
              "flags": {"thorough": ["-unwind", "64", "-bounds", "N08levels=2,N08ops=3"]}, "reach": ["C08.retained_delivered", "C08.cleared", "C08.inprocess"]},
             # a retained update / clear landing between the two steps of a new subscription (hook on the topic store)
-            {"pkg": "service", "run": "H08b_.*|H08c_.*|H08d_.*|H08e_.*|H08f_.*", "flags": {"common": ["-unwind", "64"]}, "reach_any": ["C08.update_during_subscribe", "C08.capped_grant", "C08.inprocess_retained_publish", "C08.multi_filter", "C08.retained_same_id"]},
+            {"pkg": "service", "run": "H08b_.*|H08c_.*|H08d_.*|H08e_.*|H08f_.*|H08g_.*", "flags": {"common": ["-unwind", "64"]}, "reach_any": ["C08.update_during_subscribe", "C08.capped_grant", "C08.inprocess_retained_publish", "C08.multi_filter", "C08.retained_same_id", "C08.inprocess_subscriber_busy"]},
+            # a large retained message refreshed while new subscriptions are still encoding the copy they were handed (see C18)
+            {"pkg": "service", "run": "H18_retained_refresh_large", "flags": {"common": ["-unwind", "3000", "-race"]}, "reach": ["C18.retained_refresh_large"]},
             # sizes: a stored message downgraded across the 127/128 length boundary; 9..12 retained matches for one SUBSCRIBE
             {"pkg": "service", "run": "H08s_.*|H08m_.*", "flags": {"common": ["-unwind", "300"]}, "reach": ["C08.boundary_retained"], "reach_for": "H08s_boundary_retained", "reach_any": ["C08.many_retained"]},
             # retained updates, clears and look-ups by several connections at once, with the race detector (see C18)
@@ -335,6 +339,9 @@ CHECKS = {
         "groups": [
             {"pkg": "service", "run": "H09_.*", "flags": {"common": ["-unwind", "64"]},
              "reach": ["C09.will_seen"], "reach_for": "H09_will|H09_reconnect", "reach_any": ["C09.pipelined", "C09.ended", "C09.reconnected", "C09.retained_will_qos", "C09.will_id_collides_with_one_in_flight"]},
+            # the will of a dropped connection is still being fanned out (a slow subscriber) when the same client connects again
+            # and the session takes the new CONNECT: the subscribers behind the slow one get the FIRST connection's will (see C18)
+            {"pkg": "service", "run": "H18_will_during_takeover", "flags": {"common": ["-unwind", "3000", "-race"]}, "reach": ["C18.will_during_takeover"]},
             # a dead client whose full outgoing ring blocks its own processor (or a publisher to it) is still dropped at
             # keep-alive expiry, and its will is published (see C19 / C05; without the self-flooding variant: known finding there)
             {"pkg": "service", "run": "H19b_dead_subscriber", "flags": {"common": ["-unwind", "100000", "-bounds", "N19selfflood=0"]}, "reach": ["C19.dead_subscriber_dropped"]},
@@ -351,6 +358,8 @@ CHECKS = {
         "level_note": "canonical schedule; one filter ('t'); two simultaneous connections with the same id (take-over) are outside",
         "max_validate": {"quick": 100, "thorough": 300},
         "groups": [
+            # an acknowledged subscription whose retained delivery jams and whose client then drops is part of the session
+            {"pkg": "service", "run": "H07j_.*", "flags": {"common": ["-unwind", "100000"]}, "reach": ["C07.acknowledged_then_jammed"]},
             {"pkg": "service", "run": "H10_.*",
              "flags": {"common": ["-unwind", "64"], "quick": ["-bounds", "N10conns=2"], "thorough": ["-bounds", "N10conns=2"]},
              "reach": ["C10.restored", "C10.history"], "reach_for": "H10_sessions", "reach_any": ["C10.takeover", "C10.broken_reconnect", "C10.unsubscribe_resumed", "C10.restored_before_first_answer"]},
